@@ -21,6 +21,7 @@ import (
 	"github.com/thought-machine/please/src/clean"
 	"github.com/thought-machine/please/src/core"
 	"github.com/thought-machine/please/src/fs"
+	"github.com/thought-machine/please/src/verifhook"
 )
 
 type dirCache struct {
@@ -36,14 +37,18 @@ func (cache *dirCache) Store(target *core.BuildTarget, key []byte, files []strin
 	cacheDir := cache.getPath(target, key, "")
 	tmpDir := cache.getFullPath(target, key, "", "=")
 	cache.markDir(cacheDir, 0)
+	verifhook.Point("dircache.store.marked")
 	if err := fs.RemoveAll(cacheDir); err != nil {
 		log.Warning("Failed to remove existing cache directory %s: %s", cacheDir, err)
 		return
 	}
+	verifhook.Point("dircache.store.removedOld")
 	cache.storeFiles(target, key, "", cacheDir, tmpDir, files, true)
+	verifhook.Point("dircache.store.beforeRename")
 	if err := os.Rename(tmpDir, cacheDir); err != nil && !os.IsNotExist(err) {
 		log.Warning("Failed to create cache directory %s: %s", cacheDir, err)
 	}
+	verifhook.Point("dircache.store.afterRename")
 }
 
 // storeFiles stores the given files in the cache, either compressed or not.
@@ -53,6 +58,7 @@ func (cache *dirCache) storeFiles(target *core.BuildTarget, key []byte, suffix, 
 		totalSize = cache.storeCompressed(target, tmpDir, files)
 	} else {
 		for _, out := range files {
+			verifhook.Point("dircache.storeFile")
 			totalSize += cache.storeFile(target, out, tmpDir)
 		}
 	}
@@ -86,6 +92,7 @@ func (cache *dirCache) storeCompressed2(target *core.BuildTarget, filename strin
 		return err
 	}
 	defer f.Close()
+	verifhook.Point("dircache.storeCompressed.created")
 	bw := bufio.NewWriter(f)
 	defer bw.Flush()
 	gw := gzip.NewWriter(bw)
@@ -96,6 +103,7 @@ func (cache *dirCache) storeCompressed2(target *core.BuildTarget, filename strin
 	for _, file := range files {
 		// Any one of these might be a directory, so we have to walk them.
 		if err := fs.Walk(filepath.Join(outDir, file), func(name string, isDir bool) error {
+			verifhook.Point("dircache.storeCompressed.entry")
 			hdr, err := cache.tarHeader(name, outDir)
 			if err != nil {
 				return err
@@ -425,6 +433,7 @@ func (cache *dirCache) clean(highWaterMark, lowWaterMark uint64) uint64 {
 		log.Error("error walking cache directory: %s\n", err)
 		return totalSize
 	}
+	verifhook.Point("dircache.clean.walked")
 	log.Info("Total cache size: %s", humanize.Bytes(totalSize))
 	if totalSize < highWaterMark {
 		return totalSize // Nothing to do, cache is small enough.
@@ -449,6 +458,7 @@ func (cache *dirCache) clean(highWaterMark, lowWaterMark uint64) uint64 {
 			log.Errorf("Couldn't rename %s: %s", entry.Path, err)
 			continue
 		}
+		verifhook.Point("dircache.clean.renamed")
 		if err := fs.RemoveAll(newPath); err != nil {
 			log.Errorf("Couldn't remove %s: %s", newPath, err)
 			continue
